@@ -1015,7 +1015,18 @@ impl<'a> Ctx<'a> {
                 }
                 K::EOpenFailure { peer, err } if *peer == j => {
                     if open {
-                        v.push(("c11:open-failure-while-open".into(), format!("node {i}: NotificationStreamOpenFailure({err}) for n{j} at {} while the stream is open", ts(r.t))));
+                        // One specific shape is a recorded finding (KNOWN_FINDINGS.jsonl): the node has
+                        // already been told that the connection is gone, the user's own open request is
+                        // answered (no connection / dial failure) by the protocol task before the
+                        // per-stream task has reported the closure of the stream that died with it.
+                        let conn_gone = matches!(err.as_str(), "DialFailure" | "NoConnection")
+                            && open_credit > 0
+                            && {
+                                let pos = evs.iter().position(|q| std::ptr::eq(*q, *r)).unwrap_or(0);
+                                evs[..pos].iter().rev().find(|q| matches!(&q.k, K::AEst { peer } | K::AClosed { peer } if *peer == j)).is_some_and(|q| matches!(q.k, K::AClosed { .. }))
+                            };
+                        let class = if conn_gone { "c11:open-failure-while-open:request-answered-before-closure-reported" } else { "c11:open-failure-while-open" };
+                        v.push((class.into(), format!("node {i}: NotificationStreamOpenFailure({err}) for n{j} at {} while the stream is open", ts(r.t))));
                     }
                     if open_credit == 0 && accept_credit == 0 && !open {
                         v.push(("c11:unsolicited-open-failure".into(), format!("node {i}: NotificationStreamOpenFailure({err}) for n{j} at {} although nothing was requested or accepted", ts(r.t))));
